@@ -22,10 +22,11 @@ import (
 	"github.com/attestantio/vouch/internal/vstub"
 	"github.com/attestantio/vouch/services/beaconblockproposer"
 	"github.com/attestantio/vouch/services/blockrelay"
+	nullmetrics "github.com/attestantio/vouch/services/metrics/null"
 	"github.com/attestantio/vouch/util"
 	"github.com/holiman/uint256"
+	"github.com/rs/zerolog"
 	"github.com/shopspring/decimal"
-	e2types "github.com/wealdtech/go-eth2-types/v2"
 )
 
 type c09Relay struct {
@@ -59,10 +60,20 @@ var _ builderclient.BuilderBidProvider = (*c09Relay)(nil)
 
 const c09Slot = phase0.Slot(1000)
 
+// c09Values, when set, makes bid values, offsets and factors come from small catalogues of
+// concrete numbers (among them the example of the documentation: value 1000, offset 10,
+// factor 110 against a bid of 1105): every score is then computed by the real math/big, so a
+// score formula that differs from the reference is decided at once, where the symbolic fold can
+// only answer "unknown" for wide multiplications and divisions that do not cancel syntactically.
+var c09Values []uint64
+
 // ndBid builds a capella bid with symbolic value, fee recipient, timestamp,
 // builder key and header (block hash).
 func ndBid(prefix string) (*builderspec.VersionedSignedBuilderBid, uint64) {
 	val := vnd.SmallU64(prefix+".value", 40)
+	if c09Values != nil {
+		val = c09Values[vnd.Choose(prefix+".value", len(c09Values))]
+	}
 	hdr := &capella.ExecutionPayloadHeader{
 		FeeRecipient: bellatrix.ExecutionAddress(vnd.Addr(prefix + ".fee-recipient")),
 		Timestamp:    vnd.U64(prefix + ".timestamp"),
@@ -75,9 +86,45 @@ func ndBid(prefix string) (*builderspec.VersionedSignedBuilderBid, uint64) {
 	return bid, val
 }
 
+// c09DomainType is the DOMAIN_APPLICATION_BUILDER value of the stub chain
+// specification, c09Domain the genesis domain the stub node derives from it.
+var (
+	c09DomainType = phase0.DomainType{0x00, 0x00, 0x00, 0x01}
+	c09Domain     = phase0.Domain{0x00, 0x00, 0x00, 0x01, 0xf5, 0xa5, 0xfd, 0x42}
+)
+
+// c09Spec is the spec provider New asks for the application builder domain type.
+type c09Spec struct{}
+
+func (c09Spec) Spec(_ context.Context, _ *api.SpecOpts) (*api.Response[map[string]any], error) {
+	return &api.Response[map[string]any]{Data: map[string]any{"DOMAIN_APPLICATION_BUILDER": c09DomainType}, Metadata: map[string]any{}}, nil
+}
+
+// c09Domains is the domain provider New asks for the application builder domain.
+type c09Domains struct{}
+
+func (c09Domains) Domain(_ context.Context, t phase0.DomainType, _ phase0.Epoch) (phase0.Domain, error) {
+	return c09Domains{}.GenesisDomain(context.Background(), t)
+}
+
+func (c09Domains) GenesisDomain(_ context.Context, t phase0.DomainType) (phase0.Domain, error) {
+	if t != c09DomainType {
+		return phase0.Domain{}, errors.New("unexpected domain type")
+	}
+	return c09Domain, nil
+}
+
+// c09New builds the strategy the way main does: through New.
+func c09New(ct *vstub.ChainTime, timeout time.Duration) *Service {
+	s, err := New(context.Background(), WithLogLevel(zerolog.Disabled), WithMonitor(&nullmetrics.Service{}),
+		WithSpecProvider(c09Spec{}), WithDomainProvider(c09Domains{}), WithChainTime(ct), WithTimeout(timeout))
+	vnd.Assert(err == nil && s != nil, "C09.new.accepted")
+	return s
+}
+
 func c09Service() (*Service, *vstub.ChainTime) {
 	ct := vstub.NewChainTime(0)
-	return &Service{chainTime: ct, timeout: 2 * time.Second, relayPubkeys: nil}, ct
+	return c09New(ct, 2*time.Second), ct
 }
 
 // VerifC09_Eligible: a relay's response carries a bid iff the bid is eligible:
@@ -139,12 +186,18 @@ func VerifC09_Fold() {
 		cfgA = &blockrelay.BuilderConfig{Category: "priority"}
 		if vnd.Bool("builder.offset") {
 			cfgA.Offset = new(big.Int).SetUint64(vnd.SmallU64("offset", 40))
+			if c09Values != nil {
+				cfgA.Offset = new(big.Int).SetUint64([]uint64{0, 5, 10}[vnd.Choose("offset", 3)])
+			}
 			if vnd.Bool("offset.negative") {
 				cfgA.Offset = new(big.Int).Neg(cfgA.Offset)
 			}
 		}
 		if vnd.Bool("builder.factor") {
 			factors := []int64{0, 50, 100, 150}
+			if c09Values != nil {
+				factors = []int64{0, 50, 100, 110}
+			}
 			cfgA.Factor = big.NewInt(factors[vnd.Choose("factor", len(factors))])
 		}
 		cfgs[builderA] = cfgA
@@ -223,10 +276,10 @@ func VerifC09_Fold() {
 // all queried relays are listed, no winner when no eligible bid arrived.
 func VerifC09_Auction() {
 	util.VerifResetBuilderClients()
-	s, ct := c09Service()
+	ct := vstub.NewChainTime(0)
 	timeout := time.Duration(vnd.I64("timeout"))
 	vnd.Assume(timeout >= 2 && timeout <= 60000)
-	s.timeout = timeout
+	s := c09New(ct, timeout)
 	n := vnd.IntRange("relays", 1, 2)
 	relays := make([]*c09Relay, n)
 	vals := make([]uint64, n)
@@ -293,8 +346,8 @@ func VerifC09_Auction() {
 // or unparseable) must not crash the auction; the other relays still take part.
 func VerifC16_AuctionBadRelayAddress() {
 	util.VerifResetBuilderClients()
-	s, ct := c09Service()
-	s.timeout = 1000
+	ct := vstub.NewChainTime(0)
+	s := c09New(ct, 1000)
 	bad := []string{"", "http://bad host/", "https://relay.example/%zz"}[vnd.Choose("bad-address", 3)]
 	good := &c09Relay{name: "https://relay-a.example"}
 	var v uint64
@@ -330,8 +383,7 @@ func (r *c09KeyedRelay) Pubkey() *phase0.BLSPubKey { return r.key }
 // (never a crash, also not on the second use); with no key known the bid is
 // taken unverified. (The BLS pairing check is an oracle with a symbolic outcome.)
 func VerifC09_Signature() {
-	ct := vstub.NewChainTime(0)
-	s := &Service{chainTime: ct, timeout: 2 * time.Second, relayPubkeys: map[phase0.BLSPubKey]*e2types.BLSPublicKey{}}
+	s, ct := c09Service()
 	slotStart := uint64(ct.StartOfSlot(c09Slot).Unix())
 	bid := &builderspec.VersionedSignedBuilderBid{Version: consensusspec.DataVersionCapella, Capella: &buildercapella.SignedBuilderBid{
 		Message: &buildercapella.BuilderBid{Header: &capella.ExecutionPayloadHeader{FeeRecipient: bellatrix.ExecutionAddress{1}, Timestamp: slotStart, BlockHash: phase0.Hash32{9}, ExtraData: []byte{}},
@@ -389,4 +441,10 @@ func VerifC09_Signature() {
 			vnd.Assert(passedOn == valid, "C09.signature.bid-passed-on-exactly-when-its-signature-verifies")
 		}
 	}
+}
+
+// VerifC09_FoldValues: the fold step over catalogues of concrete values (see c09Values).
+func VerifC09_FoldValues() {
+	c09Values = []uint64{99, 1000, 1105}
+	VerifC09_Fold()
 }
